@@ -50,9 +50,9 @@ def gen(tier, seed):
 
 
 def suites(tier, seed):
-    return [Suite("id-lifecycles", "machine", lambda: mg.id_lifecycle_cases(Rng(seed + 5), 2, 6 if tier == "quick" else 7, stride=3 if tier == "quick" else 1, offset=seed) + mg.id_lifecycle_cases(Rng(seed + 6), 3, 6, stride=41 if tier == "quick" else 5, offset=seed, prefix="j"),
+    return [Suite("id-lifecycles", "machine", lambda: mg.id_lifecycle_cases(Rng(seed + 5), 2, 5) + mg.id_lifecycle_cases(Rng(seed + 4), 2, 6, stride=23 if tier == "quick" else 2, offset=seed, prefix="k") + mg.id_lifecycle_cases(Rng(seed + 6), 3, 5 if tier == "quick" else 6, stride=19 if tier == "quick" else 29, offset=seed, prefix="j"),
                   monitor=monitor, nontrivial=lambda c, il: True, canon=mg.canon_nondet, candidate_ok=mg.candidate_ok, shards=4,
-                  rule="channel_max 2: every sequence of 6 (thorough: 7) operations from {open automatic, open id 1, open id 2, close 1, close 2} (quick: every 3rd); channel_max 3: sequences of 6 sampled; then a call in flight on every open channel, replies arriving in reverse order: each reply reaches the channel that asked, ids are never shared"),
+                  rule="channel_max 2: EVERY sequence of 5 operations from {open automatic, open id 1, open id 2, client closes 1 / 2, server closes 1 / 2} and a sample of the sequences of 6; channel_max 3: sequences of 5 (6) sampled; then a call in flight on every open channel, replies arriving in reverse order: each reply reaches the channel that asked, ids are never shared"),
             Suite("calls-at-api", "api", lambda: __import__("props.c12", fromlist=["x"]).gen(tier, seed + 4), monitor=__import__("props.c12", fromlist=["x"]).monitor,
                   nontrivial=__import__("props.c12", fromlist=["x"]).nontrivial, canon=__import__("apigen").canon,
                   rule="the public API over the real queue ends (api engine): every synchronous operation returns exactly the values of the reply pre-loaded for it, every nowait variant is sent with nowait set and returns without consuming a reply (so nothing is left over for the next call), a reply of the wrong type is FrameUnexpected; exact diff against the Lean Api model + the C12 oracle"),
